@@ -10,6 +10,7 @@ import (
 	"runtime/debug"
 	"sort"
 	"strings"
+	"time"
 
 	_ "buf.build/gen/go/bufbuild/protovalidate/protocolbuffers/go/buf/validate"
 	_ "github.com/pentops/j5/gen/j5/auth/v1/auth_j5pb"
@@ -53,6 +54,30 @@ var goodTypes, badTypes []*TypeInfo
 var byPkg = map[string][]*TypeInfo{}
 var pkgNames []string
 
+// catalogueHang: the very first use of this type on a fresh codec never returned (native mode only)
+var catalogueHang string
+
+// callWithTimeout runs f; in native-fallback builds (the code under test may block on primitives
+// the simulator does not own) it gives up after 15 s of real time and reports false. The goroutine
+// is then leaked on purpose.
+func callWithTimeout(f func()) bool {
+	if !nativeFallback() {
+		f()
+		return true
+	}
+	done := make(chan struct{})
+	go func() {
+		defer close(done)
+		f()
+	}()
+	select {
+	case <-done:
+		return true
+	case <-time.After(15 * time.Second):
+		return false
+	}
+}
+
 func buildCatalogue() {
 	registerDynamicTypes()
 	var names []string
@@ -72,12 +97,17 @@ func buildCatalogue() {
 			continue
 		}
 		ti := &TypeInfo{Name: n, Desc: mt.Descriptor(), Type: mt, Pkg: string(mt.Descriptor().ParentFile().Package())}
-		func() {
+		probe := func() {
 			defer func() { _ = recover() }()
 			c := codec.NewCodec()
 			_, err := c.ProtoToJSON(mt.New())
 			ti.Reflectable = err == nil
-		}()
+		}
+		if catalogueHang != "" {
+			// a first use already blocked forever: do not start more
+		} else if !callWithTimeout(probe) {
+			catalogueHang = n
+		}
 		catalogue = append(catalogue, ti)
 		catByName[n] = ti
 		if ti.Reflectable {
